@@ -191,8 +191,10 @@ Loop:
 		if err != nil {
 			switch err {
 			case codec.ErrUnKnown, codec.ErrInvalidResp, codec.ErrInvalidInitializing:
-				logging.Errorf("[%ds] redis response parse failed, error: %s", s.fd, err)
-				continue
+				// the bytes were not consumed and can never be attributed to a request:
+				// decoding them again would spin forever, so give up this connection
+				logging.Errorf("[%ds] redis response parse failed, close the connection, error: %s", s.fd, err)
+				return el.closeConn(s, err, ConnErr)
 
 			// process the redis moved/ask packet
 			case codec.MovedOrAsk:
